@@ -17,7 +17,8 @@ import os
 
 from hypothesis import strategies as st
 
-from vlib import cli, faults, tree
+from vlib import cli, faults, fuzzing, tree
+from vlib.gen import values as V
 from vlib.core import hyp_run
 from vlib.gen import project as P
 
@@ -26,7 +27,7 @@ LEVEL = "fault_enumeration"
 RULE = (
     "(a) ALL (key, TOML type) pairs: keys {version, annotations, path, precedence, SPDX-FileCopyrightText, SPDX-License-Identifier} x 19 value shapes "
     "(string, int, float, bool, date-time, date, time, arrays of each, nested array, empty array, inline table, array of tables, table, absent), in the "
-    "root and in a nested REUSE.toml; (b) generated TOML documents (recursive values), truncated / corrupted TOML, dep5 with missing fields, broken "
+    "root and in a nested REUSE.toml; (b) generated TOML documents (recursive values), truncated / corrupted TOML, dep5 with missing fields, an unparseable License expression (=> exit 2), broken "
     "stanzas, bad escapes, duplicate fields, invalid UTF-8, dep5 + REUSE.toml; (c) covered files / .license siblings / LICENSES texts made of "
     "arbitrary bytes, NULs, invalid UTF-8, a project template (used by annotate) and a .gitmodules (in a Git repository) made of arbitrary bytes or of Jinja2 / git-config token sequences, unparseable or degenerate expressions ('()', '(AND 1'), 200 kB lines, thousands of ignore markers; "
     "read faults (EACCES, vanishing on open, vanishing between the directory listing and the first look at the entry — file or directory) injected per entry.  Every case is run through lint (--json, --lines), lint-file, spdx, annotate, "
@@ -263,7 +264,7 @@ def check_dep5(ctx, c):
         where = {"root": "REUSE.toml", True: "REUSE.toml", "nested": "src/REUSE.toml", "deep": "src/sub/REUSE.toml"}[c["with_toml"]]
         files[where] = "version = 1\n"
         cfgs.append(where)
-    out = run_all(ctx, c, files, config_paths=cfgs, expect_usage=c["with_toml"] or c["corrupt"] == "badutf8", what=f"generated dep5 ({c['corrupt']}{', with REUSE.toml' if c['with_toml'] else ''})")
+    out = run_all(ctx, c, files, config_paths=cfgs, expect_usage=c["with_toml"] or c["corrupt"] == "badutf8" or bool(c.get("bad_license")), what=f"generated dep5 ({c['corrupt']}{', with REUSE.toml' if c['with_toml'] else ''})")
     ctx.count(c, nontrivial=any(r.code != 0 for _c, r in out), labels=["gen:dep5", f"corrupt:{c['corrupt']}", f"with_toml:{c['with_toml']}"] + sorted({f"exit:{r.code}" for _c, r in out}),
               sample={"document": c["data"].decode("utf-8", "replace")})
 
@@ -347,6 +348,8 @@ def check_content(ctx, c):
 
 
 def replay(ctx, c):
+    if "fuzz" in c:
+        return fuzzing.replay(ctx, c)
     c = {k: v for k, v in c.items() if k != "command"}
     if c["gen"] == "table":
         check_table(ctx, c["key"], c["shape"], c["table_form"], c["nested"])
@@ -369,6 +372,17 @@ def run(ctx):
         for j, where in enumerate(["file", "dotlicense", "licenses"]):
             if (i * 3 + j) % ctx.nshards == ctx.shard:
                 check_content(ctx, {"gen": "content", "where": where, "data": data, "fault": None, "fault_on": "c.txt"})
+    # a well-formed dep5 whose License field is not an SPDX expression is a broken configuration file
+    bad = list(V.INVALID_EXPRESSIONS) + ["()", "(AND 1", "GPL-2.0+*with exception"]
+    for i, expr in enumerate(bad):
+        for j, second in enumerate((False, True)):
+            if (i * 2 + j) % ctx.nshards == ctx.shard:
+                doc = "Format: https://www.debian.org/doc/packaging-manuals/copyright-format/1.0/\nUpstream-Name: x\n\n"
+                doc += (f"Files: c.txt\nCopyright: 2020 A\nLicense: MIT\n\nFiles: src/*\nCopyright: 2020 B\nLicense: {expr}\n" if second else f"Files: *\nCopyright: 2020 A\nLicense: {expr}\n Body text\n .\n more\n")
+                check_dep5(ctx, {"gen": "dep5", "data": doc.encode(), "corrupt": "none", "with_toml": False, "bad_license": expr})
     hyp_run(ctx, "toml", toml_doc(), lambda c: check_toml(ctx, c), 120 if q else 2500)
     hyp_run(ctx, "dep5", dep5_doc(), lambda c: check_dep5(ctx, c), 120 if q else 2500)
     hyp_run(ctx, "content", content_case(), lambda c: check_content(ctx, c), 150 if q else 4000)
+    # coverage-guided stage (atheris): the loaders and the header functions in-process, oracle inside the target
+    for target, runs in (("toml", 4000 if q else 250000), ("dep5", 3000 if q else 150000), ("content", 1500 if q else 80000)):
+        fuzzing.run_stage(ctx, target, runs)
